@@ -23,6 +23,8 @@ def gen_rate(rng, states, params, kinds, derived_ok=True):
         return "%s*%s" % (p, X), k, None
     if k == "massaction":
         return "%s*%s*%s/(%s)" % (p, X, Y, "+".join(states)), k, None
+    if k == "massaction1":      # never singular on the non-negative orthant
+        return "%s*%s*%s/(1+%s)" % (p, X, Y, "+".join(states)), k, None
     if k == "massaction2":
         return "%s*%s*%s" % (p, X, Y), k, None
     if k == "saturating":
@@ -38,6 +40,7 @@ def gen_rate(rng, states, params, kinds, derived_ok=True):
 
 ALL_KINDS = ["linear", "linear", "massaction", "massaction2", "saturating", "exponential", "periodic", "const"]
 BOUNDED_KINDS = ["linear", "linear", "massaction", "saturating", "const"]
+JUMP_KINDS = ["linear", "linear", "massaction1", "saturating", "const"]
 
 
 def gen_definition(rng, kinds=ALL_KINDS, max_states=5, max_events=5, max_trans=3, types="TBD",
@@ -170,6 +173,9 @@ def spec_values(d, point):
 # ------------------------------------------------------------------ pygom construction
 def decl_states(d):
     s = d["states"]
+    if d.get("lims"):
+        # mixed declaration: plain names get the default (0, None); tuples carry explicit limits
+        return [n if l is None else (n, tuple(l)) for n, l in zip(s, d["lims"])]
     if d["decl"] == "comma": return ", ".join(s)
     if d["decl"] == "space": return " ".join(s)
     return list(s)
